@@ -45,12 +45,20 @@ func (vConviction) AddFailure(err error, host *HostInfo) bool { return false }
 func (vConviction) Reset(host *HostInfo)                      {}
 
 // what other goroutines may do to the pool between two critical sections of the filler (rely T5):
-// close it, start their own filling epoch, or remove connections - never add beyond size
+// close it, start their own filling epoch, remove connections, or complete an epoch of their own that added
+// connections up to size - never add beyond size, never add while this goroutine owns the epoch
 func vOnLockPool(mu *sync.RWMutex) {
 	if vPool == nil || mu != &vPool.mu {
 		return
 	}
-	switch vChoose("meanwhile", 4) {
+	switch vChoose("meanwhile", 5) {
+	case 4:
+		// another trigger ran a whole filling epoch meanwhile and it ended part-way (a dial failed): the pool
+		// gained a connection and is not marked filling. Only the owner of an epoch adds connections, so this
+		// cannot happen while this goroutine owns one (filling is then true).
+		if !vPool.filling && !vPool.closed && len(vPool.conns) < vPool.size {
+			vPool.conns = append(vPool.conns[:len(vPool.conns):len(vPool.conns)], &Conn{addr: "other-filler"})
+		}
 	case 1:
 		vPool.closed = true // Close(): marks closed and empties the pool
 		vPool.conns = nil
